@@ -29,6 +29,7 @@ structure Sess where
   dnext : Nat := 0
   pbad : String := ""
   sparse : Bool := false     -- `obs=sparse` on a constructor line (CONVENTIONS, Addendum 2)
+  quiet : Bool := false      -- `phys=quiet` on a constructor line: checksums instead of the dumps (scale histories)
   obsNow : Bool := false     -- the current operation is `observe`
 
 def fmtPtr (n : Nat) : Ptr → String
@@ -56,8 +57,34 @@ def joinLive {α : Type} (xs : List (Option α)) (f : Nat → α → String) (no
   let parts := (List.range xs.length).filterMap fun k => (xs.getD k none).map (f k)
   if parts.isEmpty then none_ else " ".intercalate parts
 
-def obsM (s : Sess) : String := if s.sparse && !s.obsNow then "sparse" else joinLive s.model obsM1 "none"
-def obsS (s : Sess) : String := if s.sparse && !s.obsNow then "sparse" else joinLive s.spec obsS1 "none"
+/-! ### `phys=quiet` (scale histories): FNV-1a-64 checksums instead of the dumps, exactly as `harness/shim_list.c` computes them -/
+def BIGLIM : Nat := 4000
+def fnv0 : UInt64 := 14695981039346656037
+def fnvMix (h x : UInt64) : UInt64 :=
+  let p : UInt64 := 1099511628211
+  let h := (h ^^^ (x &&& 0xff)) * p
+  let h := (h ^^^ ((x >>> 8) &&& 0xff)) * p
+  let h := (h ^^^ ((x >>> 16) &&& 0xff)) * p
+  let h := (h ^^^ ((x >>> 24) &&& 0xff)) * p
+  let h := (h ^^^ ((x >>> 32) &&& 0xff)) * p
+  let h := (h ^^^ ((x >>> 40) &&& 0xff)) * p
+  let h := (h ^^^ ((x >>> 48) &&& 0xff)) * p
+  (h ^^^ ((x >>> 56) &&& 0xff)) * p
+def fnvNat (h : UInt64) (n : Nat) : UInt64 := fnvMix h (UInt64.ofNat n)
+def ckList (xs : List Nat) : UInt64 := xs.foldl fnvNat fnv0
+def totalNodes (s : Sess) : Nat := s.model.foldl (fun a o => a + (match o with | some l => l.size | none => 0)) 0
+def bigNow (s : Sess) : Bool := s.quiet && totalNodes s > BIGLIM
+def obsM1ck (k : Nat) (l : Chain) : String :=
+  let fw := l.forward
+  let bw := l.backward
+  s!"abs{k}=#{ckList fw}/{fw.length} rev{k}=#{ckList bw}/{bw.length} size{k}={l.size} first{k}={fmtOpt fw.head?} last{k}={fmtOpt fw.getLast?}"
+def obsS1ck (k : Nat) (l : List Nat) : String :=
+  s!"abs{k}=#{ckList l}/{l.length} rev{k}=#{ckList l.reverse}/{l.length} size{k}={l.length} first{k}={fmtOpt l.head?} last{k}={fmtOpt l.getLast?}"
+
+def obsM (s : Sess) : String :=
+  if s.sparse && !s.obsNow then "sparse" else if bigNow s then joinLive s.model obsM1ck "none" else joinLive s.model obsM1 "none"
+def obsS (s : Sess) : String :=
+  if s.sparse && !s.obsNow then "sparse" else if bigNow s then joinLive s.spec obsS1ck "none" else joinLive s.spec obsS1 "none"
 
 def phys1 (s : Sess) (k : Nat) (l : Chain) : String :=
   let n := l.nodes.length
@@ -82,7 +109,30 @@ def links1 (s : Sess) (k : Nat) : String :=
     let ids := pWalk s.pst.heap (hd.size + 4) hd.head []
     let item (id : Nat) := let n := PList.nd s.pst.heap id; s!"{fmtDisp s (some id)}:{n.data}:{fmtDisp s n.prev}:{fmtDisp s n.next}"
     s!" links{k}=[{",".intercalate (ids.map item)}] hd{k}={fmtDisp s hd.head} tl{k}={fmtDisp s hd.tail}"
-def phys (s : Sess) : String := joinLive s.model (fun k l => phys1 s k l ++ links1 s k) "-" ++ s.pbad
+/-- the quiet form of the phys section of slot `k` -/
+def physQuiet1 (s : Sess) (k : Nat) (l : Chain) : String :=
+  let n := l.nodes.length
+  let hd := match l.head with | none => "-" | some j => if j == 0 then "0" else "?"
+  let tl := match l.tail with | none => "-" | some j => if j + 1 == n then "last" else "?"
+  let dnum (p : Option Nat) : Nat := match p with
+    | none => 2 ^ 64 - 1
+    | some id => match s.disp.get? id with | some d => d | none => 2 ^ 64 - 2
+  let lck : String := match s.phd.getD k none with
+    | none => "?"
+    | some h =>
+      let ids := pWalk s.pst.heap (h.size + 4) h.head []
+      let c := ids.foldl (fun (c : UInt64) id =>
+        let nd := PList.nd s.pst.heap id
+        fnvNat (fnvNat (fnvNat (fnvNat c (dnum (some id))) nd.data) (dnum nd.prev)) (dnum nd.next)) fnv0
+      toString (fnvNat (fnvNat c (dnum h.head)) (dnum h.tail))
+  s!"size{k}={l.size} head{k}={hd} tail{k}={tl} first{k}={fmtOpt l.nodes.head?} last{k}={fmtOpt l.nodes.getLast?} nck{k}={ckList l.nodes} lck{k}={lck}" ++
+  (if (s.itKind == 1 || s.itKind == 2) && s.itO == k then
+     s!" itk{k}={s.itKind} itidx{k}={s.it.index} itlast{k}={fmtPtr n s.it.last} itnext{k}={fmtPtr n s.it.next}" else "") ++
+  (if s.itKind == 3 && (s.itO == k || s.itO2 == k) then
+     s!" zitidx{k}={s.zit.index} zitlast{k}={fmtPtr n (if s.itO == k then s.zit.last1 else s.zit.last2)} zitnext{k}={fmtPtr n (if s.itO == k then s.zit.next1 else s.zit.next2)}" else "")
+def phys (s : Sess) : String :=
+  (if s.quiet && !(s.obsNow && totalNodes s ≤ BIGLIM) then joinLive s.model (physQuiet1 s) "-"
+   else joinLive s.model (fun k l => phys1 s k l ++ links1 s k) "-") ++ s.pbad
 
 def inv (s : Sess) : Bool := s.model.all fun o => match o with | none => true | some l => decide l.Inv
 
@@ -113,12 +163,36 @@ def hOut2N (c : Cmd) (st : Stat) (o : Option (Nat × Nat)) : String := if c.nat 
 
 def pickCmp (c : Cmd) : Nat → Nat → Int := if c.str "cmp" == some "key" then LSeq.cmpKey else LSeq.cmpNum
 
+/-! ### big lists (scale histories)
+
+Above `BIGLIM` nodes the driver does not execute the models element by element (the sequence-level models are quadratic on
+`List`, the pointer-level heap is a chain of closures within one call) but evaluates the **closed forms that the proofs
+establish for them**: `fill` = `n` × `add` (`addLast_ofList`, `addLast_spec`); `sort` (`sort_ofList`, `sort_spec`: same nodes, data
+rewritten); `reverse` (`reverse_ofList`); `sort_in_place` (`sortInPlaceC_eq`, `msort_eq_stableSort`, `sortInPlace_spec`: the cells permuted by the stable
+merge sort; at pointer level already above `PLFAST` nodes); `destroy`/`drop` (`destroy_ofList`, `destroy_spec`); at pointer level, above
+`PLFAST` nodes, also `reverse` (`reverse_spec`: the same nodes in reverse order) and the builders (`BuilderOk`: fresh nodes). -/
+def PLFAST : Nat := 256
+def canon (t : Triple) (xs : List Nat) : Chain :=
+  { nodes := xs, size := xs.length, head := if xs.isEmpty then none else some 0,
+    tail := if xs.isEmpty then none else some (xs.length - 1), triple := t }
+def fillVals (n sd : Nat) : List Nat := (List.range n).map fun i => (i * 7919 + sd * 104729) % 1000003
+/-- the stable merge sort of `split`/`merge` (= `LSeq.stableSort` for a total preorder: `msort_eq_stableSort`) -/
+def fastSort (cmp : Nat → Nat → Int) (xs : List Nat) : List Nat := DList.msort cmp xs.length xs
+/-- the same merge sort on cells (node id, data): which node ends up where (`PList.msortC`) -/
+def msortCells (cmp : Nat → Nat → Int) : Nat → List (Nat × Nat) → List (Nat × Nat)
+  | 0, xs => xs
+  | fuel + 1, xs =>
+    if xs.length < 2 then xs else
+    List.merge (msortCells cmp fuel (xs.take (xs.length / 2))) (msortCells cmp fuel (xs.drop (xs.length / 2)))
+      (fun a b => decide (cmp a.2 b.2 ≤ 0))
+
 /-- destroy every live slot in ascending order -/
 def destroyAll (s : Sess) (m : Mem) (cb : Bool) : Mem × List Nat :=
   (List.range NSLOT).foldl (fun (acc : Mem × List Nat) k =>
     match getM s k with
     | none => acc
-    | some l => if cb then let r := DList.destroyCb l acc.1; (r.2, acc.2 ++ r.1) else (DList.destroy l acc.1, acc.2)) (m, [])
+    | some l => if cb then let r := DList.destroyCb l acc.1; (r.2, acc.2 ++ r.1)
+                else if l.size > BIGLIM then (Mem.freeN l.triple (l.size + 1) acc.1, acc.2) else (DList.destroy l acc.1, acc.2)) (m, [])
 
 def iterStep (s : Sess) (c : Cmd) (m : Mem) : Sess × String × String :=
   let k := c.nat "o" 0
@@ -229,7 +303,8 @@ def stepCore (s : Sess) (c : Cmd) : Sess × String × String :=
   let isIt := c.op.startsWith "it_" || c.op.startsWith "dit_" || c.op.startsWith "zit_"
   let s := if isIt || c.op == "observe" then s else { s with itKind := 0 }
   let s := { s with obsNow := c.op == "observe",
-                    sparse := s.sparse || (c.op.startsWith "new" && c.str "obs" == some "sparse") }
+                    sparse := s.sparse || (c.op.startsWith "new" && c.str "obs" == some "sparse"),
+                    quiet := s.quiet || (c.op.startsWith "new" && c.str "phys" == some "quiet") }
   if k ≥ NSLOT || from_ ≥ NSLOT || to ≥ NSLOT then fin1 { s with mem := m } "st=- badslot" else
   if c.op == "observe" then fin1 { s with mem := m } "st=-" else
   if c.op == "new" || c.op == "new_default" then
@@ -255,7 +330,7 @@ def stepCore (s : Sess) (c : Cmd) : Sess × String × String :=
     match c.op with
     | "drop" =>
       let sx12 := setS (setM s k none) k none
-      fin1 { sx12 with mem := DList.destroy l m } "st=-"
+      fin1 { sx12 with mem := if l.size > BIGLIM then Mem.freeN l.triple (l.size + 1) m else DList.destroy l m } "st=-"
     | "drop_cb" =>
       let r := DList.destroyCb l m
       let sx13 := setS (setM s k none) k none
@@ -302,6 +377,7 @@ def stepCore (s : Sess) (c : Cmd) : Sess × String × String :=
       let q := if c.op == "get_first" then LSeq.getFirst a else if c.op == "get_last" then LSeq.getLast a else LSeq.getAt a idx
       fin { s with mem := (r.2.2) } (hOut q.1 q.2) (hOut r.1 r.2.1)
     | "reverse" =>
+      if a.length > BIGLIM then fin1 (setMS s k (canon l.triple l.nodes.reverse) a.reverse m) "st=-" else   -- `reverse_ofList`
       let r := DList.reverse l m
       fin1 (setMS s k r.1 a.reverse r.2) "st=-"
     | "size" => fin s s!"st=- out={a.length}" s!"st=- out={l.size}"
@@ -333,12 +409,30 @@ def stepCore (s : Sess) (c : Cmd) : Sess × String × String :=
       let r := DList.filterMut LSeq.predEven l m
       let q := LSeq.filterMut LSeq.predEven a
       fin (setMS s k r.2.1 q.2 r.2.2) (fmtStat q.1) (fmtStat r.1)
+    | "fill" =>
+      -- `n` calls of `add`: one node each through the list's allocator; the first refusal stops the loop
+      let vals := fillVals (c.nat "n" 0) (c.nat "seed" 1)
+      let r := vals.foldl (fun (acc : Bool × List Nat × Mem) v => if !acc.1 then acc else
+                 let al := acc.2.2.allocT l.triple
+                 if al.1 then (true, v :: acc.2.1, al.2) else (false, acc.2.1, al.2)) (true, [], m)
+      let added := r.2.1.reverse
+      let st : Stat := if r.1 then .ok else .errAlloc
+      fin (setMS s k (canon l.triple (l.nodes ++ added)) (a ++ added) r.2.2) (fmtStat st) (fmtStat st)
     | "sort" =>
+      if a.length > BIGLIM then
+        let al := m.allocT l.triple
+        let sorted := fastSort LSeq.cmpNum a
+        if al.1 then fin (setMS s k (canon l.triple (fastSort LSeq.cmpNum l.nodes)) sorted (al.2.freeT l.triple)) (fmtStat .ok) (fmtStat .ok)
+        else fin (setMS s k l a al.2) (fmtStat .errAlloc) (fmtStat .errAlloc)
+      else
       let r := DList.sort (LSeq.stableSort LSeq.cmpNum) l m
       let q := LSeq.sort false (LSeq.stableSort LSeq.cmpNum) a
       let q : Stat × List Nat := if q.1 == .ok && refused then (.errAlloc, a) else q
       fin (setMS s k r.2.1 q.2 r.2.2) (fmtStat q.1) (fmtStat r.1)
     | "sort_in_place" =>
+      if a.length > BIGLIM then
+        fin1 (setMS s k (DList.sortInPlace (pickCmp c) l) (fastSort (pickCmp c) a) m) "st=-"
+      else
       let r := DList.sortInPlaceC (pickCmp c) l m
       fin1 (setMS s k r.1 (LSeq.stableSort (pickCmp c) a) r.2) "st=-"
     | "mk_sub" | "mk_copy_shallow" | "mk_copy_deep" | "mk_filter" =>
@@ -387,6 +481,29 @@ def resync (s : Sess) : Sess :=
 def setP (s : Sess) (k : Nat) (st : PList.St) (h : Option PList.Hdr) : Sess := { s with pst := st, phd := s.phd.set k h }
 def chk (s : Sess) (m : Mem) : Sess := if fmtMem m == fmtMem s.mem then s else { s with pbad := " PMEM=differs" }
 
+/-- the cells (node id, data) of slot `k` along `next` from `head` -/
+def curCells (s : Sess) (k : Nat) : List (Nat × Nat) :=
+  match s.phd.getD k none with
+  | none => []
+  | some h => (pWalk s.pst.heap (h.size + 4) h.head []).map fun id => (id, (PList.nd s.pst.heap id).data)
+/-- slot `k` rebuilt at pointer level from a cell list (the closed forms of the big-list operations); `dead` ids leave the heap -/
+def rebuild (s : Sess) (k : Nat) (t : Triple) (cells : List (Nat × Nat)) (dead : List Nat) (keep : Bool) : Sess :=
+  let arr := cells.toArray
+  let n := arr.size
+  let tbl : Std.HashMap Nat (Option PList.PNode) := Id.run do
+    let mut tb : Std.HashMap Nat (Option PList.PNode) := {}
+    for d in dead do tb := tb.insert d none
+    for i in [0:n] do
+      let c := arr[i]!
+      tb := tb.insert c.1 (some { data := c.2, next := if i + 1 < n then some arr[i+1]!.1 else none,
+                                  prev := if i = 0 then none else some arr[i-1]!.1 })
+    return tb
+  let old := s.pst.heap
+  let heap : PList.Heap := ⟨fun j => match tbl.get? j with | some x => x | none => old j⟩
+  let hdr : PList.Hdr := { size := n, head := if n = 0 then none else some arr[0]!.1,
+                           tail := if n = 0 then none else some arr[n-1]!.1, triple := t }
+  { s with pst := { s.pst with heap := heap }, phd := s.phd.set k (if keep then some hdr else none) }
+
 /-- advance the pointer-level model: `old` is the session before the operation, `s` after it -/
 def plStep (old s : Sess) (c : Cmd) : Sess :=
   let k := c.nat "o" 0
@@ -397,6 +514,61 @@ def plStep (old s : Sess) (c : Cmd) : Sess :=
   let idx := c.nat "idx" 0
   if k ≥ NSLOT || from_ ≥ NSLOT || to ≥ NSLOT then s else
   if plUnsupported.contains c.op then resync s else
+  -- closed forms for the big-list operations (see above)
+  if c.op == "fill" then
+    match old.phd.getD k none, getM s k with
+    | some h, some l' =>
+      let cs := curCells old k
+      let newData := l'.nodes.drop cs.length
+      let fr := s.pst.fresh
+      let newCells := ((List.range newData.length).zip newData).map fun iv => (fr + iv.1, iv.2)
+      rebuild { s with pst := { s.pst with fresh := fr + newData.length } } k h.triple (cs ++ newCells) [] true
+    | _, _ => s
+  else
+  if c.op == "sort" && (match getM old k with | some l => l.size > PLFAST | none => false) then
+    match old.phd.getD k none, getM s k with
+    | some h, some l' => let cs := curCells old k; rebuild s k h.triple ((cs.map (·.1)).zip l'.nodes) [] true
+    | _, _ => s
+  else
+  if c.op == "sort_in_place" && (match getM old k with | some l => l.size > PLFAST | none => false) then
+    match old.phd.getD k none with
+    | some h => let cs := curCells old k; rebuild s k h.triple (msortCells (pickCmp c) cs.length cs) [] true
+    | none => s
+  else
+  if c.op == "reverse" && (match getM old k with | some l => l.size > PLFAST | none => false) then
+    -- `reverse_spec`: the same nodes in reverse order
+    match old.phd.getD k none with
+    | some h => rebuild s k h.triple (curCells old k).reverse [] true
+    | none => s
+  else
+  if c.op.startsWith "mk_" && (match getM old k with | some l => l.size > PLFAST | none => false) then
+    -- `BuilderOk`: on success the result consists of fresh nodes carrying the sequence-level content, the source is untouched
+    if (getM old to).isSome || to == k then s else
+    match old.phd.getD k none, getM s to with
+    | some h, some l' =>
+      let fr := s.pst.fresh
+      let cells := ((List.range l'.nodes.length).zip l'.nodes).map fun iv => (fr + iv.1, iv.2)
+      rebuild { s with pst := { s.pst with fresh := fr + l'.nodes.length } } to h.triple cells [] true
+    | _, _ => s
+  else
+  if (c.op == "filter_mut" || c.op == "remove_all") && (match getM old k with | some l => l.size > PLFAST | none => false) then
+    -- `filterMut_spec` / `removeAll_spec`: exactly the nodes whose element fails the predicate (all nodes) leave the chain
+    match old.phd.getD k none with
+    | some h =>
+      let cs := curCells old k
+      let keep := if c.op == "filter_mut" then cs.filter (fun x => LSeq.predEven x.2) else []
+      let dead := if c.op == "filter_mut" then (cs.filter (fun x => !LSeq.predEven x.2)).map (·.1) else cs.map (·.1)
+      rebuild s k h.triple keep dead true
+    | none => s
+  else
+  if (c.op == "drop" || c.op == "destroy") && (List.range NSLOT).any (fun j => match getM old j with | some l => l.size > PLFAST | none => false) then
+    (List.range NSLOT).foldl (fun (acc : Sess) j =>
+      if c.op == "destroy" || j == k then
+        match old.phd.getD j none with
+        | some h => rebuild acc j h.triple [] ((curCells old j).map (·.1)) false
+        | none => acc
+      else acc) s
+  else
   if c.op == "new" || c.op == "new_default" then
     if (getM old k).isSome then s else
     let r := PList.new (if c.op == "new_default" then .libc else .conf) m
